@@ -3321,7 +3321,13 @@ class FuncRandom(ValueFunc):
     def getRandomInt(self, minv, maxv):
         minv = math.ceil(minv)
         maxv = math.floor(maxv)
-        return math.floor(self.seededRandom() * (maxv - minv)) + minv
+        try:
+            return math.floor(self.seededRandom() * (maxv - minv)) + minv
+        except OverflowError:
+            # the span does not fit into a decimal
+            raise CklRuntimeError(
+                ValueString("ERROR"), "Range too large for random"
+            )
 
     def getRandomDouble(self):
         return self.seededRandom()
